@@ -45,15 +45,6 @@ def with_seps(rng, sep, maxparts=5):
     return sep.join(parts)
 
 
-def num_text(v):
-    """v: int | (int, 'frac') | '-0' -> driver text"""
-    if isinstance(v, str):
-        return v
-    if isinstance(v, tuple):
-        return v[0]
-    return str(v)
-
-
 def rand_num(rng, n):
     """Returns (text, kind, value): kind in int|frac ; value = python int (trunc toward zero) ;
     neg zero is int 0."""
@@ -128,8 +119,10 @@ def lower_ascii(s):
 # ---------------------------------------------------------------- case builders
 # each returns dict(key=line, op=..., expect=str|None (exact) , expect_prefix=..., nontrivial=bool, meta=...)
 
-def mk(line, expect=None, nontrivial=True, prefix=None, **meta):
-    return {"key": line, "expect": expect, "prefix": prefix, "nontrivial": nontrivial, "meta": meta}
+def mk(line, expect=None, nontrivial=True, **meta):
+    if expect is not None and expect.startswith("E ") and not expect.startswith("E indexOutOfRange"):
+        nontrivial = False   # an error outcome inspects no position
+    return {"key": line, "expect": expect, "nontrivial": bool(nontrivial), "meta": meta}
 
 
 def c_length(s):
@@ -385,6 +378,10 @@ CORPUS = [
     lambda: c_splitlimit("a,é,\U0001F600,d", ",", ("2", "int", 2), True),
     lambda: c_splitlimit("éaaaa", "aa", ("1", "int", 1), True),
     lambda: c_splitlimit("a,b", ",", (str(2**64), "int", 2**64), False),
+    # fixed by fbb65b2: a count >= 2^64 fell back to the left-to-right split
+    lambda: c_splitlimit("aaa", "aa", (str(10**20), "int", 10**20), True),
+    lambda: c_splitlimit("éaaaé", "aa", (str(2**64), "int", 2**64), True),
+    lambda: c_splitlimit("aaa", "aa", ("-1", "int", -1), True),
     lambda: c_strip("strip", "é\U0001F600aé", "é\U0001F600"),
     lambda: c_replace("éaaa", "aa", "\U0001F600"),
     lambda: c_replace("aé", "", "-"),
@@ -439,8 +436,6 @@ def direct_oracle(c, a):
     # identities from the property statement, on the implementation's own output
     if op in ("lstrip", "rstrip", "strip") and a.startswith("s "):
         r, s, cs = parse_s(a), m["s"], m["cs"]
-        if op in ("lstrip", "strip"):
-            pass
         if r not in s:
             return "strip result is not a substring"
         if op == "lstrip":
@@ -462,8 +457,6 @@ def direct_oracle(c, a):
             if len(pieces) != min(n, cnt) + 1:
                 return "piece count %d != min(n, occurrences)+1 = %d" % (len(pieces), min(n, cnt) + 1)
             inner = pieces[:-1] if op == "splitlimit" else pieces[1:]
-            if len(pieces) - 1 == n and n < cnt:
-                pass
             for p in inner:
                 if sep in p and not self_overlapping(sep):
                     return "a separator survives inside a split piece"
